@@ -44,3 +44,16 @@ Proof. vm_compute. repeat split. Qed.
 Example C20_checker_adds_across_empty_chunks :
   nlmax_ok 2 [mkc CKOther [97] 0; mkc CKNewline [] 2; mkc CKOther [] 0; mkc CKNewline [] 1; mkc CKOther [98] 0] = false.
 Proof. vm_compute. reflexivity. Qed.
+
+(** file edges: the line breaks that open and close the output are the nl_count of the first and of the last NEWLINE chunk *)
+Theorem C20_file_starts_with_nl_count_breaks : forall o last sp l c,
+  last <> 13 -> Forall crfree (c :: l) -> ck c = CKNewline ->
+  flat_map bv (render o last sp (c :: l)) = repeat true (Z.to_nat (nl_count c)) ++ flat_map bcontrib l.
+Proof. exact file_start_breaks. Qed.
+Print Assumptions C20_file_starts_with_nl_count_breaks.
+
+Theorem C20_file_ends_with_nl_count_breaks : forall o last sp l c,
+  last <> 13 -> Forall crfree (l ++ [c]) -> ck c = CKNewline ->
+  flat_map bv (render o last sp (l ++ [c])) = flat_map bcontrib l ++ repeat true (Z.to_nat (nl_count c)).
+Proof. exact file_end_breaks. Qed.
+Print Assumptions C20_file_ends_with_nl_count_breaks.
